@@ -94,7 +94,8 @@ MODES_OK = [0o100644, 0o100755, 0o120000, 0o40000, 0o160000]
 MODES_ODD = [0o100664, 0, 0o100600, 0o100700, 0o100010, 0o100654, 0o100666, 0o40755, 0o140000, 0o170000, 1, 0o644, 0o100644 + 2 ** 20, 2 ** 32 - 1, 0o20000]
 MODE_TEXTS = [b"100644", b"100755", b"120000", b"40000", b"160000", b"040000", b"0100644", b"00100644", b"000000100644", b"100664", b"100010",
               b"100654", b"100700", b"100100", b"100001", b"140000", b"1", b"0", b"7777777", b"77777777", b"37777777777", b"40000000000", b"10064x",
-              b"+100644", b"", b" ", b"8", b"100644\0", b"1006 44", b"120777", b"40755", b"100644" * 2, b"0" * 5000 + b"100644"]
+              b"+100644", b"", b" ", b"8", b"100644\0", b"1006 44", b"120777", b"40755", b"100644" * 2]
+LONG_MODE = b"0" * 5000 + b"100644"                  # longer than the decoder's read buffer (thorough tier)
 
 
 def long_name(n):
@@ -125,7 +126,7 @@ def rnd_entries(rng, n, names):
     return es
 
 
-def gen_dec(rng, bucket):
+def gen_dec(rng, bucket, tier="quick"):
     if bucket == "dec-valid":
         es = sorted(rnd_entries(rng, rng.randrange(0, 8), PLAIN), key=git_key)
         raw = py_encode(es)
@@ -144,7 +145,7 @@ def gen_dec(rng, bucket):
     elif bucket == "dec-modes":
         es = []
         for k in range(rng.randrange(1, 5)):
-            es.append(enc_entry(rng.choice(MODE_TEXTS), b"%c%d" % (97 + k, k), BLOB))
+            es.append(enc_entry(rng.choice(MODE_TEXTS + ([LONG_MODE] if tier == "thorough" else [])), b"%c%d" % (97 + k, k), BLOB))
         raw = b"".join(es)
     elif bucket == "dec-names":
         raw = b"".join(enc_entry(b"100644", rng.choice(DISGUISE + DOTFILES + ODD + [long_name(4096), long_name(4097), long_name(5000)]),
@@ -235,7 +236,7 @@ class Main(Suite):
     name = "main"
     go_cmd = "c04"
     coq_imports = "From GoGit Require Import Model.TreeObj Spec.GitTree."
-    quick_n = 360
+    quick_n = 260
     thorough_n = 6000
     coq_chunk = 200
 
@@ -246,7 +247,7 @@ class Main(Suite):
         out = []
         for _ in range(n):
             b = pick_weighted(rng, buckets)
-            out.append(gen_dec(rng, b) if b.startswith("dec") else gen_enc(rng, b))
+            out.append(gen_dec(rng, b, tier) if b.startswith("dec") else gen_enc(rng, b))
         return out
 
     def model_expr(self, c):
@@ -372,6 +373,8 @@ class Main(Suite):
             if len(raw) <= 12000:
                 uniq[oid] = (raw, ls, errs)
         oids = sorted(uniq)
+        if ctx.tier == "quick":
+            oids = oids[::max(1, len(oids) // 100)]       # a spread sample; the thorough tier takes every tree
         ls_out = ctx.coq_eval(self.coq_imports, ['c04_git_ls 20 "%s"' % uniq[o][0].hex() for o in oids], chunk=self.coq_chunk)
         fs_out = ctx.coq_eval(self.coq_imports, ['c04_git_fsck 20 "%s"' % uniq[o][0].hex() for o in oids], chunk=self.coq_chunk)
         bad = 0
